@@ -285,6 +285,51 @@ class MergeWith(FnSpec):
         ]
 
 
+class GetFieldVals(FnSpec):
+    """the stub `get_field_vals` above is this function's contract: verified here against the real body"""
+
+    file = "schema/partial.py"
+    qual = "PartialFactory._get_field_vals"
+    props = ("C14",)
+
+    def init(self):
+        self.bindings["is_public_name"] = lambda cx, n: SBool(z3.Function("is_public_name", z3.StringSort(), B)(n.t))
+        self.comps[0] = pairs_filter
+
+    def setup(self, cx):
+        for ax in val_axioms():
+            cx.assume(ax)
+        ob = ModelObj("PartialModel", name="obj")
+        ob.fields["__dict__"] = SMap.fresh(STR, TVal(), "obj_dict")
+        a = A(cls=SClass("PartialFactory"), obj=ob)
+        a.d0 = ob.fields["__dict__"].snapshot()
+        return a
+
+    def ensures(self, cx, a, res):
+        if not isinstance(res, SMap):
+            return [("yields-name-value-pairs", z3.BoolVal(False), "pairs of field name and value")]
+        k = z3.String(fresh_name("gk"))
+        PUB = z3.Function("is_public_name", z3.StringSort(), B)
+        d = a.d0
+        return [
+            ("exactly-the-provided-public-values-of-the-object", z3.ForAll([k], z3.And(res.has(k) == z3.And(d.has(k), PUB(k), KIND(d.get_term(k)) != NONE), z3.Implies(res.has(k), res.get_term(k) == d.get_term(k)))), "EVERY public value the object actually holds that is not None is provided — also values under names the partial class does not declare itself (subclass fields, extra keys) and falsy values; nothing else"),
+            ("object-not-mutated", a.obj.fields["__dict__"].same(cx, d), "reading the values does not change the object"),
+        ]
+
+
+def pairs_filter(interp, cx, fr, e):
+    """`((k, v) for k, v in MAP.items() if P(k, v))` read as the sub-map of MAP (order is irrelevant to the callers)"""
+    import ast
+
+    from pyvc.api import ContractStale, dict_items_filter
+
+    if not (isinstance(e, ast.GeneratorExp) and isinstance(e.elt, ast.Tuple) and len(e.elt.elts) == 2 and all(isinstance(x, ast.Name) for x in e.elt.elts)):
+        raise ContractStale("_get_field_vals no longer yields (name, value) pairs of the iterated items")
+    dc = ast.DictComp(key=e.elt.elts[0], value=e.elt.elts[1], generators=e.generators)
+    ast.copy_location(dc, e)
+    return dict_items_filter(interp, cx, fr, dc)
+
+
 def model_copy(cx, obj, **kw):
     new = ModelObj(obj.cls, name="copy_of_" + obj.name)
     new.fields["__dict__"] = obj.fields["__dict__"].snapshot()  # T5: own field dict, same values
@@ -329,7 +374,7 @@ def build(reg):
     reg.method_bindings[("PartialFactory", "_get_field_vals")] = get_field_vals
     reg.method_bindings[("PartialModel", "copy")] = model_copy
     reg.method_bindings[("PartialModel", "cast")] = lambda cx, me, obj, **kw: obj  # cast of an instance of the same partial class is the identity (T5)
-    specs = [UpdateField(), MergeWith()]
+    specs = [UpdateField(), MergeWith(), GetFieldVals()]
     for s in specs:
         reg.add(s)
     return {
